@@ -13,10 +13,19 @@ import (
 
 type C10Base struct{ ID int8 }
 
+// embedded in the element struct, with an unexported field ahead of the exported ones
+type C10ElemBase struct {
+	rev   int
+	Name  string
+	Owner string
+}
+
 type c10elem struct {
 	N      string
 	hidden int // element structs are not pointerified: unexported fields survive into the transformer
 	V      int8
+	PS     *struct{ Max int8 }
+	C10ElemBase
 }
 
 type C10Mid struct {
@@ -77,10 +86,24 @@ func c10elems(st reflect.Type, mode int, v int8) reflect.Value {
 	case 1:
 		return reflect.MakeSlice(st, 0, 0)
 	}
-	s := reflect.MakeSlice(st, 1, 1)
-	e := s.Index(0)
-	c10setPtr(e.FieldByName("N"), "n")
-	c10setPtr(e.FieldByName("V"), v)
+	n := mode - 1 // mode 2: one element; mode 3: two elements (each with its own pointer-to-struct)
+	s := reflect.MakeSlice(st, n, n)
+	for i := 0; i < n; i++ {
+		e := s.Index(i)
+		c10setPtr(e.FieldByName("N"), "n")
+		c10setPtr(e.FieldByName("V"), v)
+		if ps := e.FieldByName("PS"); ps.IsValid() && ps.Kind() == reflect.Ptr {
+			p := reflect.New(ps.Type().Elem())
+			p.Elem().FieldByName("Max").SetInt(int64(10 + i))
+			ps.Set(p)
+		}
+		if f, ok := c10locate(e, "Name", 0); ok {
+			c10setPtr(f, "nm")
+		}
+		if f, ok := c10locate(e, "Owner", 0); ok {
+			c10setPtr(f, "ow")
+		}
+	}
 	return s
 }
 
@@ -90,11 +113,18 @@ func c10chkElems(s reflect.Value, mode int, v int8, what string) {
 		zzverif.Assert(s.IsNil(), "C10 embedded "+what+": an unset slice of structs came back set")
 	case 1:
 		zzverif.Assert(!s.IsNil() && s.Len() == 0, "C10 embedded "+what+": an explicitly empty slice of structs did not come back empty and non-nil")
-	case 2:
-		zzverif.Assert(!s.IsNil() && s.Len() == 1, "C10 embedded "+what+": a one-element slice of structs changed length")
-		if !s.IsNil() && s.Len() == 1 {
-			e := s.Index(0)
-			zzverif.Assert(e.FieldByName("N").String() == "n" && e.FieldByName("V").Int() == int64(v), "C10 embedded "+what+": the element's leaves changed")
+	case 2, 3:
+		n := mode - 1
+		zzverif.Assert(!s.IsNil() && s.Len() == n, "C10 embedded "+what+": a slice of structs changed length")
+		if !s.IsNil() && s.Len() == n {
+			for i := 0; i < n; i++ {
+				e := s.Index(i)
+				zzverif.Assert(e.FieldByName("N").String() == "n" && e.FieldByName("V").Int() == int64(v), "C10 embedded "+what+": the element's leaves changed")
+				ps := e.FieldByName("PS")
+				zzverif.Assert(!ps.IsNil() && ps.Elem().FieldByName("Max").Int() == int64(10+i), "C10 embedded "+what+": an element's pointer-to-struct leaf lost its value (or is shared with another element)")
+				b := e.FieldByName("C10ElemBase")
+				zzverif.Assert(b.FieldByName("Name").String() == "nm" && b.FieldByName("Owner").String() == "ow", "C10 embedded "+what+": a leaf of the struct embedded in the element (declared after an unexported field) was lost")
+			}
 		}
 	}
 }
@@ -119,7 +149,7 @@ func HarnessC10Embedded() {
 		return
 	}
 	sFirst, sID, sK, sM1, sLast := zzverif.Bool("first"), zzverif.Bool("id"), zzverif.Bool("k"), zzverif.Bool("m1"), zzverif.Bool("last")
-	mList, mItems := zzverif.Choose("list", 3), zzverif.Choose("items", 3)
+	mList, mItems := zzverif.Choose("list", 3), zzverif.Choose("items", 4)
 	sStamps := zzverif.Bool("stamps")
 	ev := zzverif.Int8("ev")
 	idv := zzverif.Int8("idv")
@@ -187,6 +217,19 @@ func HarnessC10Embedded() {
 	zzverif.Assert(out.Type() == t, "C10 embedded: the reversed value does not have exactly the original type")
 	if out.Type() != t {
 		return
+	}
+	// a Transformer is used for many values (every report of a wrapped watcher, every flag-source
+	// call): reversing an empty value afterwards gives an entirely unset result and leaves the
+	// earlier result alone
+	empty, eerr := tfm.Translate()
+	if eerr == nil {
+		out2, rerr2 := tfm.ReverseTranslate(empty)
+		zzverif.Assert(rerr2 == nil, "C10 embedded: reversing an empty translated value failed")
+		if rerr2 == nil {
+			for i := 0; i < out2.NumField(); i++ {
+				zzverif.Assert(out2.Field(i).IsNil(), "C10 embedded: an empty translated value did not reverse to an entirely unset original")
+			}
+		}
 	}
 	f := func(n string) reflect.Value { return out.FieldByName(n) }
 	zzverif.Assert(f("First").IsNil() == !sFirst, "C10 embedded: First set/unset wrongly")
